@@ -1,4 +1,4 @@
-import MypyVerif.Proofs.LayoutList
+import MypyVerif.Proofs.LayoutSide
 import MypyVerif.Proofs.LayoutFS
 import MypyVerif.Proofs.LayoutDir
 import MypyVerif.Proofs.LayoutPkg
@@ -10,49 +10,6 @@ not), every option combination (`namespace_packages`, `explicit_package_bases`, 
 every list of command-line arguments.
 -/
 namespace Layout
-
-/-! ## unpacking the decidable side conditions -/
-
-theorem snoc_of_ne_nil {m : List Name} (h : m ≠ []) : ∃ dc x, m = dc ++ [x] :=
-  ⟨m.dropLast, m.getLast h, (List.dropLast_concat_getLast h).symm⟩
-
-theorem importable_snoc {dc : List Name} {x : Name} (h : importable (dc ++ [x]) = true) :
-    (∀ c ∈ dc, isIdent c = true) ∧ isIdent x = true ∧ x ≠ sInit := by
-  simp only [importable, Bool.and_eq_true, List.all_eq_true, List.mem_append, List.mem_singleton,
-    bne_iff_ne, ne_eq] at h
-  exact ⟨fun c hc => (h.2 c (Or.inl hc)).1, (h.2 x (Or.inr rfl)).1, (h.2 x (Or.inr rfl)).2⟩
-
-theorem spells_snoc {B : Path} {dc : List Name} {x : Name} {f : Path} (h : spells B (dc ++ [x]) f = true) :
-    spellsAt (B ++ dc) x f := by
-  simp only [spells, getLast?_snoc, List.dropLast_concat, pkgFiles, modFiles, List.tail_cons,
-    Bool.or_eq_true, List.contains_eq_mem, List.mem_cons, List.not_mem_nil, or_false, decide_eq_true_eq] at h
-  unfold spellsAt
-  rcases h with (h | h) | (h | h)
-  · exact Or.inl h
-  · exact Or.inr (Or.inl h)
-  · exact Or.inr (Or.inr (Or.inl h))
-  · exact Or.inr (Or.inr (Or.inr h))
-
-theorem noInnerBase_snoc {o : Opts} {roots : List Path} {dc : List Name} {x : Name}
-    (h : noInnerBase o roots (dc ++ [x]) = true) :
-    ∀ R ∈ roots, noBaseBelow o R (x :: dc.reverse) = true ∧ o.isBase (R ++ dc ++ [x ++ sStubs]) = false := by
-  intro R hR
-  simp only [noInnerBase, List.all_eq_true, Bool.and_eq_true, Bool.not_eq_true'] at h
-  have := h R hR
-  simpa using this
-
-theorem isPyArg_candidate {bd : Path} {x : Name} {g : Path} (h : g ∈ pkgFiles bd x ++ modFiles bd x) :
-    isPyArg g = true := by
-  simp only [pkgFiles, modFiles, List.cons_append, List.nil_append, List.mem_cons, List.mem_nil_iff, or_false] at h
-  rcases h with rfl | rfl | rfl | rfl | rfl
-  · have : (bd ++ [x ++ sStubs, initPyi]).getLast? = some initPyi := by simp
-    simp [isPyArg, this, endsPy_initPyi]
-  · have : (bd ++ [x, initPyi]).getLast? = some initPyi := by simp
-    simp [isPyArg, this, endsPy_initPyi]
-  · have : (bd ++ [x, initPy]).getLast? = some initPy := by simp
-    simp [isPyArg, this, endsPy_initPy]
-  · simp [isPyArg, endsPy_pyi]
-  · simp [isPyArg, endsPy_py]
 
 /-! ## the round trip -/
 
@@ -91,19 +48,6 @@ theorem roundtrip_or_claim (fs : FS) (wf : fs.WF) (o : Opts) (roots : List Path)
   · have hns' : o.ns = false := by simpa using hns
     obtain ⟨g, R, h1, h2, h3, h4, h5⟩ := find_claims_nons fs o wf hns' hdc hx hxi hsp' hf hc hB hgood hinn
     exact ⟨g, R, h1, h2, h3, h4, isPyArg_candidate h5⟩
-
-theorem modId_of_importable {s : Src} (h : importable s.module = true) : s.modId = s.module := by
-  have hne : s.module ≠ [] := by
-    intro he; rw [he] at h; simp [importable] at h
-  have hid : ∀ c ∈ s.module, isIdent c = true := by
-    simp only [importable, Bool.and_eq_true, List.all_eq_true] at h
-    exact fun c hc => (h.2 c hc).1
-  have : s.srcModule = s.module := by
-    unfold Src.srcModule
-    cases hm : s.module with
-    | nil => exact absurd hm hne
-    | cons a b => rfl
-  rw [Src.modId, this, searchComps_ident hid]
 
 /-- **C18, listing level (`roundtrip_or_duplicate`, provable part).**  For every coherent file system, option
     combination and argument list for which `create_source_list` succeeds: either two listed files with different
@@ -432,6 +376,70 @@ theorem pkg_names_agree_partial (fs : FS) (wf : fs.WF) (o : Opts) (fuel : Nat) (
       simp only [List.head?_cons, Option.some.injEq] at hc1
       subst hc1
       simpa using h
+
+/-- **No source file is found twice under different module names (provable part).**  `load_graph` stops with
+    "Source file found twice under different module names" when an import `m` resolves (through `find_module`) to a
+    file that is already in the graph under another name.  For an importable `m` and search roots derived from the
+    sources this cannot happen to a listed file: the listed name *is* `m` — under the side conditions of
+    `pkg_names_agree_partial` (configured roots are genuine bases, no explicit base inside a root along `m`, top-level
+    regular package or explicit base). -/
+theorem no_found_twice_partial (fs : FS) (wf : fs.WF) (o : Opts) (fuel : Nat) (args : List Path) (srcs : List Src)
+    (hcreate : createSourceList fs o fuel args = .ok srcs) (hroots : goodRoots fs o = true)
+    (m : List Name) (g : Path) (s : Src)
+    (himp : importable m = true) (hinner : noInnerBase o (searchRoots o srcs) m = true)
+    (htop : topOK fs o (searchRoots o srcs) m = true)
+    (hfind : findModule fs o.ns (searchRoots o srcs) m = some g) (hfile : fs.isFile g = true)
+    (hs : s ∈ srcs) (hpath : s.path = g) : s.module = m ∧ s.modId = m := by
+  have hok := createSourceList_ok fs o args srcs hcreate
+  have hne : m ≠ [] := by intro he; subst he; simp [importable] at himp
+  obtain ⟨dc, x, rfl⟩ := snoc_of_ne_nil hne
+  obtain ⟨hdc, hx, hxi⟩ := importable_snoc himp
+  have htop' : ∀ R ∈ searchRoots o srcs, fs.isDir (R ++ dc) = true → ∀ c1, dc.head? = some c1 →
+      o.isBase R = true ∨ hasInit fs (R ++ [c1]) = true := by
+    intro R hR hdir c1 hc1
+    simp only [topOK, List.all_eq_true, Bool.or_eq_true, decide_eq_true_eq, Bool.not_eq_true'] at htop
+    rcases htop R hR with ((h | h) | h) | h
+    · exact Or.inl h
+    · cases dc with
+      | nil => simp at hc1
+      | cons a as => simp at h
+    · rw [List.dropLast_concat, hdir] at h; cases h
+    · right
+      cases dc with
+      | nil => simp at hc1
+      | cons a as =>
+        simp only [List.head?_cons, Option.some.injEq] at hc1
+        subst hc1
+        simpa using h
+  obtain ⟨R, _, hcr⟩ := find_then_crawl fs o wf hdc hx hxi (searchRoots_good fs o hok hroots)
+    (noInnerBase_snoc hinner) htop' hfind hfile
+  have hmod : s.module = dc ++ [x] := by
+    rcases hok s hs with hc | ⟨_, hnp⟩
+    · exact module_of_crawled fs o hc (by rw [hpath]; exact hcr)
+    · -- a script has no `.py[i]` suffix, but everything `find_module` returns has one
+      exfalso
+      have hlen : (dc ++ [x]).length - 1 = dc.length := by simp
+      simp only [findModule, getLast?_snoc, hlen] at hfind
+      have hgpy : isPyArg g = true := by
+        rcases findLoop_spec fs _ _ _ hfind with ⟨c, _, hfound⟩ | ⟨_, _, lvl, hmem, _⟩
+        · exact isPyArg_candidate (scanDir_found fs hxi hfound).2.1
+        · simp only [List.nil_append] at hmem
+          obtain ⟨c, _, l', hs', hgl', _⟩ := (mem_missesOf fs).mp hmem
+          rcases scanDir_misses fs hs' g hgl' with h | h
+          · exact isPyArg_candidate h.1
+          · unfold nsDir at h
+            split at h
+            · next hc =>
+              simp only [List.mem_singleton] at h
+              subst h
+              simp only [Bool.and_eq_true, Bool.not_eq_true'] at hc
+              rw [hfile] at hc
+              exact absurd hc.2 (by simp)
+            · cases h
+      rw [hpath, hgpy] at hnp; cases hnp
+  refine ⟨hmod, ?_⟩
+  have : importable s.module = true := by rw [hmod]; exact himp
+  rw [modId_of_importable this, hmod]
 
 /-- F10 seen from `-p`: `find_modules_recursive("b")` makes the *directory* `b/a` the source of module `b.a` and never
     lists `b/a.pyi` -/
